@@ -1457,6 +1457,8 @@ func (m *MapPollard) Write(w io.Writer) (int, error) {
 		copy(leafBuf[:32], v.Hash[:])
 		if v.Remember {
 			leafBuf[32] = 1
+		} else {
+			leafBuf[32] = 0
 		}
 		bytes, err = w.Write(leafBuf[:])
 		if err != nil {
